@@ -19,7 +19,8 @@ type mon struct {
 	props map[string]bool
 	out   []violation
 	// derived
-	dispatchAt map[int]int // job object id -> log position of the dispatcher's status.Store(processing)
+	dispatchAt map[int]int // job object id -> log position of the dispatcher's claim (status -> processing)
+	dequeueAt  map[int]int // job object id -> log position of the Dequeue that handed the job to the dispatcher
 	concAt     []sample    // (t, "conc", value)
 	status     []sample    // worker status stores (t, value)
 }
@@ -46,7 +47,7 @@ func siteFunc(id int) string { return siteTab[id].Func }
 func siteExpr(id int) string { return siteTab[id].Expr }
 
 func runMonitors(f family, e *env, s *vt.Sched) []violation {
-	m := &mon{e: e, s: s, props: map[string]bool{}, dispatchAt: map[int]int{}}
+	m := &mon{e: e, s: s, props: map[string]bool{}, dispatchAt: map[int]int{}, dequeueAt: map[int]int{}}
 	for _, p := range f.props {
 		m.props[p] = true
 	}
@@ -70,7 +71,17 @@ func runMonitors(f family, e *env, s *vt.Sched) []violation {
 
 func (m *mon) derive() {
 	m.concAt = append(m.concAt, sample{0, "conc", m.e.conc, 0})
+	lastDeq := map[int]int{} // tid -> position of its latest dequeue operation
 	for i, ev := range m.s.Log {
+		if ev.Kind == "ad:deq" || (ev.Kind == "lock" && strings.HasSuffix(siteFunc(ev.Site), ".Dequeue")) {
+			lastDeq[ev.Tid] = i
+		}
+		if ev.Kind == "cas" && siteFunc(ev.Site) == "job.startProcessing" && strings.HasPrefix(ev.Val, "1:") {
+			m.dispatchAt[ev.Owner] = i
+			if d, ok := lastDeq[ev.Tid]; ok {
+				m.dequeueAt[ev.Owner] = d
+			}
+		}
 		if ev.Kind == "store" {
 			fn, ex := siteFunc(ev.Site), siteExpr(ev.Site)
 			if fn == "job.changeStatus" && ev.Val == "2" {
@@ -519,7 +530,7 @@ func (m *mon) c09() {
 		// hold lasts until the next call of Resume / Restart (or a Bind, which restarts a stopped worker: D2)
 		end := 1 << 60
 		for _, d := range m.e.calls {
-			if d.tCall > c.tRet && (d.name == "Resume" || d.name == "Restart") && d.tCall < end {
+			if d.tCall >= c.tRet && (d.name == "Resume" || d.name == "Restart") && d.tCall < end {
 				end = d.tCall
 			}
 		}
